@@ -313,9 +313,16 @@ func checkC12(c *Ctx) {
 				// same source on every iteration: clear only on the first one
 				bf := boolTable(info, call.Args[2])
 				firstOnly := false
-				for name := range bf.exprs {
+				for name, e := range bf.exprs {
+					// a boolean local defined once as `<index> == 0` stands for that test
+					test := name
+					if id, ok := unparen(e).(*ast.Ident); ok {
+						if ds := localDefs(f, id.Name, id.Pos()); len(ds) == 1 && ds[0].rhs != nil {
+							test = canon(info, ds[0].rhs)
+						}
+					}
 					for _, lv := range loopVars {
-						if name == lv+" == 0" {
+						if test == lv+" == 0" {
 							if okf, _ := bf.forAll(map[string]bool{name: false}, false); okf {
 								firstOnly = true
 							}
